@@ -239,6 +239,7 @@ func (t *irGen) chainStep(reorgDepth int) {
 func genImp(g *Gen) {
 	nHist := g.Scale(70, 1000)
 	nLong := g.Scale(5, 50)
+	genImpTrailing(g) // gen_imp_trail.go: first in the stream, own random source
 	for h := 0; h < nHist || (!g.Covered() && h < 4*nHist); h++ {
 		// (beyond the budget: long histories in turn, they carry most of the required classes)
 		genImpHistory(g, h < nLong || (h >= nHist && h%2 == 0), h)
